@@ -138,7 +138,12 @@ fn find_fn<'a>(file: &'a File, item: &Value) -> Option<(Signature, Block, Vec<At
                     return Some((f.sig.clone(), (*f.block).clone(), f.attrs.clone(), full_span(f), None));
                 }
                 Item::Impl(im) if impl_self.is_some() => {
-                    if type_ident(&im.self_ty).as_deref() != impl_self.as_deref() {
+                    // `impl_self` starting with `=`: the self type must be exactly this text (e.g. `=()`, `=&()`), not just named so
+                    let hit = match impl_self.as_deref() {
+                        Some(x) if x.starts_with('=') => norm(&im.self_ty) == x[1..].replace(' ', ""),
+                        x => type_ident(&im.self_ty).as_deref() == x,
+                    };
+                    if !hit {
                         continue;
                     }
                     if let Some(t) = impl_trait {
@@ -372,7 +377,32 @@ fn main() {
                 let unit_ret = matches!(sig.output, ReturnType::Default);
                 rules::mark_ret(&mut block, &marker_name, unit_ret);
                 let ret = rules::ret_marker(&mut sig);
+                let as_free = item.get("as_free_fn").and_then(|x| x.as_bool()).unwrap_or(false);
+                if as_free {
+                    // R31: a method of an impl whose self type cannot carry an inherent impl here (`()`, `&()`) is emitted as a
+                    // free function: `&self` becomes the parameter `vx_self: &SelfTy`, `where Self: Sized` is dropped
+                    if let Some(sh) = &shell {
+                        let self_ty = sh.self_ty.clone();
+                        if let Some(FnArg::Receiver(r)) = sig.inputs.first().cloned() {
+                            let new_arg: FnArg = if r.reference.is_some() {
+                                if r.mutability.is_some() { parse_quote! { vx_self: &mut #self_ty } } else { parse_quote! { vx_self: &#self_ty } }
+                            } else { parse_quote! { vx_self: #self_ty } };
+                            let mut inputs: Vec<FnArg> = sig.inputs.iter().cloned().collect();
+                            inputs[0] = new_arg;
+                            sig.inputs = inputs.into_iter().collect();
+                            if !contract_only { rules::rename_self(&mut block, "vx_self"); }
+                        }
+                        // the impl's generics and bounds move to the function; the method's own `where Self: Sized` is dropped
+                        let mut params: Vec<GenericParam> = sh.generics.params.iter().cloned().collect();
+                        params.extend(sig.generics.params.iter().cloned());
+                        sig.generics.params = params.into_iter().collect();
+                        if !sig.generics.params.is_empty() && sig.generics.lt_token.is_none() { sig.generics.lt_token = Some(Default::default()); sig.generics.gt_token = Some(Default::default()); }
+                        sig.generics.where_clause = sh.generics.where_clause.clone();
+                        fired.push("R31-method-as-free-fn".into());
+                    }
+                }
                 let f = quote! { #sig #block };
+                let shell = if as_free { None } else { shell };
                 let text = match shell {
                     Some(mut sh) => {
                         sh.attrs.clear();
